@@ -8,6 +8,9 @@ pref = sys.argv[2] if len(sys.argv) > 2 else ''
 for m in muts:
     if not m['id'].startswith(pref):
         continue
+    if m.get('retired'):
+        print(f"{m['id']}: retired - {m['retired']}", flush=True)
+        continue
     cmd = [os.path.join(V, 'tools', 'sens.py'), m['props'], '--file', m['file'], '--old', m['old'], '--new', m['new'],
            '--count', str(m.get('count', 1))]
     if m.get('tests'):
